@@ -5,7 +5,8 @@
       proof verifies together with the stored value; for an absent key it
       returns no proof;
     - soundness: whatever proof bytes are supplied, an accepted (root, key,
-      value) has root = the state's root and (key, value) in the state;
+      value) has root = the state's root and (key, value) in the state
+      (no condition on the state);
     - robustness: malformed proof bytes are rejected, nothing panics. *)
 From Coq Require Import List ZArith NArith Bool.
 From C33 Require Import C01.Keys C01.Spec C03.Model.
@@ -30,21 +31,3 @@ Definition spec_verify (els : smap) (troot root k v : bytes) (acc : bool) : bool
 
 (** Bytes that do not decode are never accepted. *)
 Definition spec_malformed (acc : bool) : bool := negb acc.
-
-(** The guard of the soundness theorem: a leaf (k0, v0) is CONFUSABLE with an
-    inner node when the message LeafNode{k0, v0, 0, 1} can also be read as
-    InnerNode{left = k0, right = v0, height 0, size 1} with one side a 32-byte
-    digest: both strings survive the 32-byte trimming (length <= 32) and
-    either the key is 32 bytes long, or the value is 32 bytes long and the
-    key is not empty (an empty LeftHash selects the other side). *)
-Definition confusable (k0 v0 : bytes) : bool :=
-  (Nat.leb (length k0) 32) && (Nat.leb (length v0) 32) &&
-  (Nat.eqb (length k0) 32 || (Nat.eqb (length v0) 32 && negb (Nat.eqb (length k0) 0))).
-
-Definition no_confusable (els : smap) : bool :=
-  forallb (fun kv => negb (confusable (fst kv) (snd kv))) els.
-
-(** Signature of known finding 1 on a proof: it contains a node with
-    height 0 and size 1 (no honest inner node has these). *)
-Definition has_leaf_shaped_node (pi : list pnode) : bool :=
-  existsb (fun b => (pn_height b =? 0) && (pn_size b =? 1)) pi.
